@@ -7,6 +7,7 @@ import ast
 from sa.consir import EnumVal, Expr, N, World, all_nodes, routes
 from sa.consteval import ConstEval, NotConstant
 from sa.paths import Engine, loop_body_paths, show_sv, strip_epoch
+from sa.report import Undecided
 
 # COSEM Blue Book table 2: tag -> (octets, signed)
 WIRE = {6: (4, False), 15: (1, True), 16: (2, True), 18: (2, False), 5: (4, True), 17: (1, False), 20: (8, True), 21: (8, False)}
@@ -74,12 +75,25 @@ def obis_code_field(w: World):
     if not (c.kind == "ExprAdapter" and isinstance(c.a["sub"], N) and c.a["sub"].kind == "Array" and c.a["sub"].a["count"] == 6 and int_spec(c.a["sub"].a["sub"]) == (1, False, "big")):
         return "OBIS code is not six unsigned octets"
     dec = c.a["decoder"]
-    if not (isinstance(dec, Expr) and isinstance(dec.node, ast.Lambda)):
-        return "OBIS decoder is not a lambda"
-    body = dec.node.body
-    ok = (isinstance(body, ast.Call) and isinstance(body.func, ast.Attribute) and body.func.attr == "join" and isinstance(body.func.value, ast.Constant) and body.func.value.value == ".")
-    if not ok:
-        return "OBIS decoder does not join the six groups with '.'"
+    node = dec.node if isinstance(dec, Expr) else None
+    if isinstance(node, ast.Name):
+        # a named module-level function used as the decoder
+        tree = w.src.tree(dec.mod or "cosem")
+        node = next((s_ for s_ in tree.body if isinstance(s_, ast.FunctionDef) and s_.name == node.id), None)
+    if not isinstance(node, (ast.Lambda, ast.FunctionDef)):
+        raise Undecided("the decoder of the OBIS code field is not a lambda or a module-level function")
+    # the decoder is interpreted on octet lists (boundary values, one to three digits): it must give the six groups in decimal joined with '.'
+    from sa.consteval import NotConstant
+    from sa.lameval import Ctx, LamEval
+    from sa.model import Model
+    le = LamEval(Model(w.src))
+    for octs in ([1, 0, 1, 8, 0, 255], [0, 0, 96, 1, 0, 255], [255, 254, 10, 100, 9, 0], [1, 1, 31, 7, 0, 255]):
+        try:
+            got = le.call_lambda(node, [list(octs), Ctx()], dec.mod or "cosem", extra=dict(le.module_env(dec.mod or "cosem")))
+        except NotConstant as ex:
+            raise Undecided(f"the decoder of the OBIS code field is outside the interpreted subset: {ex}")
+        if got != ".".join(str(o) for o in octs):
+            return f"OBIS decoder does not join the six groups (decimal) with '.': {octs} gives {got!r}"
     return None
 
 
@@ -506,3 +520,24 @@ def ident_findings(M, mod="dlde"):
             if pr != ("value", want):
                 out.append(("is-ident-line", f"Ident.is_ident_line({line!r}) gives {pr[1]!r} instead of {want}"))
     return out
+
+
+class ResultLog:
+    """the dictionaries one interpreter state returned for a sequence of decodes: each must be an object of its own that later decodes leave alone"""
+
+    def __init__(self):
+        self.items = []
+
+    def add(self, desc, got):
+        if isinstance(got, dict):
+            self.items.append((desc, got, dict(got)))
+
+    def finding(self):
+        for i, (d, g, snap) in enumerate(self.items):
+            for d2, g2, _ in self.items[i + 1:]:
+                if g2 is g:
+                    return (f"the dictionary returned for one message is the same object that a later decode refills: a result the caller keeps changes when the next message is decoded",
+                            f"result of the {d} is the object returned again for the {d2}")
+            if dict(g) != snap:
+                return ("a dictionary returned earlier is modified by a later decode", f"result of the {d} changed afterwards")
+        return None
